@@ -11,7 +11,7 @@ PROP = "C14"
 LEVEL = "other"
 MODULE = "PropC14"
 THEOREMS = ["C14_decode_ascii", "C14_decode_progress", "C14_state_fn_total_but_eof", "C14_sticky_run_continues",
-            "C14_emitted_text_is_slice"]
+            "C14_emitted_text_is_slice", "C14_tokens_in_source_order", "C14_next_token_span"]
 
 EOL, EOF, INT, FLOAT, STR, NAME, STICKY, NOTSTICKY = 1, 2, 3, 4, 5, 6, 7, 8
 STICKYCH = set(b"+*/=<>!-&|#%~")
